@@ -131,8 +131,8 @@ def _c10_plan(tier, seed):
 
 def _c10_lists(tier, seed):
     quick = tier == "quick"
-    c = props_cl.consts(3 if quick else 4, 2 if not quick else 1, lists=2, ops={"a", "r", "v", "cc", "mc", "ca", "ma", "s", "d"} if quick else {"a", "i", "r", "v", "o", "cc", "mc", "ca", "ma", "s", "d"},
-                        nest={"a", "r"} if not quick else set(), jump=(1,))
+    c = props_cl.consts(3 if quick else 4, 2 if not quick else 1, lists=2, ops={"a", "r", "v", "cc", "mc", "ca", "ma", "s", "d", "j"} if quick else {"a", "i", "r", "v", "o", "cc", "mc", "ca", "ma", "s", "d", "j"},
+                        nest={"a", "r"} if not quick else set(), jump=(0,))
     return {"interp": "harness/cl_interp.cpp", "trace_module": "TraceCL",
             "models": [{"module": "CLImpl", "tag": "two-lists", "constants": c, "invariants": props_cl.INV, "heap": "16g"}],
             "worlds": [props_cl.world("cl_single_fn", 0, 0), props_cl.world("cl_multi_cb", 1, 1, fraction=0.2, fill="0xFF")],
@@ -179,7 +179,7 @@ def _c08_objects(tier, seed):
     return p
 
 
-COMPOSITE["C08"] = [_c08_lists, _c08_queue, _c08_objects]
+COMPOSITE["C08"] = [_c08_lists, _c08_queue, _c08_objects, (lambda tier, seed: props_fault.plans(tier, seed)[1])]   # + copies/additions failing half-way
 COMPOSITE["C20"] = [(lambda i: (lambda tier, seed: props_c20.plans(tier, seed)[i]))(i) for i in range(4)]
 COMPOSITE["C09"] = [(lambda i: (lambda tier, seed: props_fault.plans(tier, seed)[i]))(i) for i in range(6)]
 
